@@ -330,7 +330,7 @@ func checkC20repo(c *Ctx) {
 	}
 
 	// R20.4 ---------------------------------------------------------------
-	c.Rule("R20.4", "rxGarbleFlag's alternatives are exactly the flags registered on garble's FlagSet", 5)
+	c.Rule("R20.4", "rxGarbleFlag's alternatives are exactly the flags registered on garble's FlagSet, and it matches whole flag names only", 6)
 	regs := flagRegistrations([]*packages.Package{w.Main}, w.All)
 	own := map[string]bool{}
 	for _, r := range regs {
@@ -364,6 +364,18 @@ func checkC20repo(c *Ctx) {
 					c.Bad("R20.4", "regexp alternative -"+n, w.Pos(rxPos), "rxGarbleFlag rejects -"+n+", which is not a garble flag (a go flag of that name could no longer be used)")
 				}
 			}
+			// the pattern is matched against every element after the command, flag values included
+			// ("-o", "out-tiny"): it must be anchored at the start of the element and at the end of
+			// the name, or values and other flags that merely contain "-tiny", "-debug", ... are rejected
+			anchored := false
+			if re, err := syntax.Parse(rxSrc, syntax.Perl); err == nil {
+				re = re.Simplify()
+				if re.Op == syntax.OpConcat && len(re.Sub) > 0 && (re.Sub[0].Op == syntax.OpBeginText || re.Sub[0].Op == syntax.OpBeginLine) {
+					anchored = true
+				}
+			}
+			c.Check(anchored, "R20.4", "rxGarbleFlag is anchored", w.Pos(rxPos), "matches a whole flag name from the start of the argument",
+				"rxGarbleFlag is not anchored at the start: 'garble build -o out-tiny .' and 'garble build -tags=x-debug .' are rejected with 'garble flags must precede command', although go build accepts them")
 		}
 	}
 
@@ -497,8 +509,14 @@ func regexAlternatives(src string) (map[string]bool, error) {
 		switch r.Op {
 		case syntax.OpLiteral:
 			return []string{string(r.Rune)}, nil
-		case syntax.OpEmptyMatch:
+		case syntax.OpEmptyMatch, syntax.OpBeginText, syntax.OpBeginLine:
 			return []string{""}, nil
+		case syntax.OpQuest:
+			x, err := enum(r.Sub[0])
+			if err != nil {
+				return nil, err
+			}
+			return append([]string{""}, x...), nil
 		case syntax.OpCapture:
 			return enum(r.Sub[0])
 		case syntax.OpAlternate:
@@ -551,7 +569,7 @@ func regexAlternatives(src string) (map[string]bool, error) {
 		if !strings.HasPrefix(w, "-") {
 			return nil, fmt.Errorf("alternative %q does not start with '-'", w)
 		}
-		out[strings.TrimPrefix(w, "-")] = true
+		out[strings.TrimLeft(w, "-")] = true
 	}
 	return out, nil
 }
